@@ -1,6 +1,56 @@
-From LD Require Import Base F32 Data Model Ops Bucket Eval EvalFacts.
-(* first obligation; the full statements of DESIGN.md section 6 are added as they are proved *)
-Theorem C03_invalid_ctx_untouched : forall re_ok re_match o E P f,
-  run re_ok re_match o E P CInvalid f = Done (mkoutcome (err_detail KUserNotSpecified) false []).
-Proof. exact run_invalid. Qed.
-Print Assumptions C03_invalid_ctx_untouched.
+(* C03 Individual targeting semantics *)
+From LD Require Import Base F32 Data Model Ops Bucket Eval EvalFacts Safety Codec Targets Pure Order.
+
+(* lists are consulted in listed order; the first list that contains the context's key for its kind decides
+   (stage order relative to rules is C02_target_overrides_rules) *)
+Theorem C03_legacy_only : forall c f,
+  f_ctargets f = [] -> any_target_match c f = first_some (target_match c) (f_targets f).
+Proof. exact legacy_targets_only. Qed.
+Print Assumptions C03_legacy_only.
+
+Theorem C03_context_targets : forall c f,
+  f_ctargets f <> [] -> any_target_match c f = first_some (entry_match c f) (f_ctargets f).
+Proof. exact context_targets_in_order. Qed.
+Print Assumptions C03_context_targets.
+
+Theorem C03_first_in_listed_order : forall (A B : Type) (g : A -> option B) l b,
+  first_some g l = Some b <->
+  exists pre x post, l = pre ++ x :: post /\ Forall (fun y => g y = None) pre /\ g x = Some b.
+Proof. exact @first_some_spec. Qed.
+Print Assumptions C03_first_in_listed_order.
+
+(* one list of kind K matches iff the context has an individual of kind K whose key is in the list, by exact
+   string equality; with or without the precomputed key set *)
+Theorem C03_list_membership : forall c t v,
+  t_pre t = None \/ t_pre t = string_set (t_values t) ->
+  (target_match c t = Some v <->
+   v = t_var t /\ exists i, ctx_by_kind c (t_kind t) = Some i /\ In (c_key i) (t_values t)).
+Proof. exact target_match_spec. Qed.
+Print Assumptions C03_list_membership.
+
+Theorem C03_kind_absent_never_matches : forall c t, ctx_by_kind c (t_kind t) = None -> target_match c t = None.
+Proof. exact target_kind_absent. Qed.
+Print Assumptions C03_kind_absent_never_matches.
+
+(* a user-kind entry with no keys defers to the first user target list that has the same variation *)
+Theorem C03_placeholder_defers : forall c ts v,
+  fallback_target c ts v = match find (fun t1 => Z.eqb (t_var t1) v) ts with Some t1 => target_match c t1 | None => None end.
+Proof. exact fallback_target_spec. Qed.
+Print Assumptions C03_placeholder_defers.
+
+(* ... and user target lists are otherwise not consulted: replacing them changes nothing *)
+Theorem C03_user_lists_otherwise_ignored : forall c f ts',
+  f_ctargets f <> [] -> forallb (fun t => negb (is_placeholder t)) (f_ctargets f) = true ->
+  any_target_match c (mkflag (f_key f) (f_on f) (f_prereqs f) ts' (f_ctargets f) (f_rules f) (f_fallthrough f)
+                             (f_off f) (f_vars f) (f_salt f) (f_track_ft f) (f_exclude f) (f_meta f))
+  = any_target_match c f.
+Proof. exact user_targets_not_consulted. Qed.
+Print Assumptions C03_user_lists_otherwise_ignored.
+
+Theorem C03_precomputed_equals_linear : forall k vs, find_key k vs (string_set vs) = find_key k vs None.
+Proof. exact find_key_pre_eq_plain. Qed.
+Print Assumptions C03_precomputed_equals_linear.
+
+Theorem C03_exact_equality : forall k vs, find_key k vs None = true <-> In k vs.
+Proof. exact find_key_plain. Qed.
+Print Assumptions C03_exact_equality.
